@@ -24,6 +24,9 @@ type TV struct {
 	Raw   RawBytes `json:"raw,omitempty"` // T == "rawstring": a Go string holding these bytes (not necessarily UTF-8)
 	Items []TV     `json:"items,omitempty"`
 	Keys  []string `json:"keys,omitempty"`
+	// Dup (slice_any / map_any): the Go value built for the first item is stored a second time (appended,
+	// or under the key "dup~"), i.e. ONE native map / slice / container instance at two places of an acyclic value
+	Dup bool `json:"dup,omitempty"`
 }
 
 type C12Case struct {
@@ -182,6 +185,7 @@ func genTV(t *rapid.T, depth int) TV {
 			tv.Items = append(tv.Items, genTV(t, depth-1))
 			tv.Keys = append(tv.Keys, []string{"a", "b", "", "k.1", "#0"}[i%5])
 		}
+		tv.Dup = n > 0 && oneIn(t, 4, "dup")
 		return tv
 	}
 	return TV{T: unsupportedTypes[drawIdx(t, len(unsupportedTypes), "unsup")]}
@@ -284,6 +288,9 @@ func toGo(tv TV) any {
 		for _, it := range tv.Items {
 			s = append(s, toGo(it))
 		}
+		if tv.Dup && len(s) > 0 {
+			s = append(s, s[0])
+		}
 		return s
 	case "nil_slice_any":
 		return []any(nil)
@@ -291,6 +298,9 @@ func toGo(tv TV) any {
 		m := make(map[string]any, len(tv.Items))
 		for i, it := range tv.Items {
 			m[tv.Keys[i]] = toGo(it)
+		}
+		if tv.Dup && len(tv.Items) > 0 {
+			m["dup~"] = m[tv.Keys[0]]
 		}
 		return m
 	case "nil_map_any":
@@ -510,6 +520,10 @@ func expectTV(tv TV) (V, bool) {
 				out.O = append(out.O, Pair{k, v})
 			}
 		}
+		if tv.T == "map_any" && tv.Dup && len(tv.Items) > 0 {
+			first, _ := out.Field(tv.Keys[0])
+			out.O = append(out.O, Pair{"dup~", first})
+		}
 		return out, true
 	case "List", "slice_any":
 		out := V{K: KList}
@@ -519,6 +533,9 @@ func expectTV(tv TV) (V, bool) {
 				return V{}, false
 			}
 			out.L = append(out.L, v)
+		}
+		if tv.T == "slice_any" && tv.Dup && len(out.L) > 0 {
+			out.L = append(out.L, out.L[0])
 		}
 		return out, true
 	case "nil_slice_any", "nil_slice_Object", "nil_slice_List", "nil_slice_string", "nil_slice_bool", "nil_slice_int", "nil_slice_float64":
@@ -775,9 +792,13 @@ func CheckC12(c *C12Case, st *Stats) error {
 	case "ObjMapBools":
 		call = func() { cont, key = at.NewObject("k", true, "z", 1).MapBools(func(bool) any { return x }), "k" }
 	case "ObjMapObjects":
-		call = func() { cont, key = at.NewObject("k", at.NewObject(), "z", 1).MapObjects(func(at.Object) any { return x }), "k" }
+		call = func() {
+			cont, key = at.NewObject("k", at.NewObject(), "z", 1).MapObjects(func(at.Object) any { return x }), "k"
+		}
 	case "ObjMapLists":
-		call = func() { cont, key = at.NewObject("k", at.NewList(), "z", 1).MapLists(func(at.List) any { return x }), "k" }
+		call = func() {
+			cont, key = at.NewObject("k", at.NewList(), "z", 1).MapLists(func(at.List) any { return x }), "k"
+		}
 	case "ObjMapAsync":
 		call = func() { cont, key = at.NewObject("k", 7).MapAsync(func(string, any) any { return x }), "k" }
 	case "Direct":
@@ -875,6 +896,6 @@ func CheckC12(c *C12Case, st *Stats) error {
 
 func init() {
 	Register("C12",
-		"Go values of every supported dynamic type over full ranges (int8..int64, uint8..uint64 and uint up to MaxInt with width edges, float32 incl. subnormals/MaxFloat32/0.1f/-0, float64, string, bool, nil, Object and List by reference, the 7 slice and 7 map flavours incl. nil and empty and nil interface entries in the Object/List flavours, []any / map[string]any nested to depth 3) and 30 unsupported types (time.Time, struct, pointer, typed nil pointers / func / chan, []int8, []byte, map[string]int8, map[int]string, array, complex, uintptr, chan, func, json.Number, named int/string, []uint, []float32, [][]any, ...), also nested inside []any/map[string]any, x 35 entry points (constructors, Add, Insert, Replace, Set, tree-form writes incl. padding and nested paths, the results of every Map variant on lists and objects incl. MapAsync, and NewListFrom/NewObjectFrom called directly). Oracle: an independent type switch in the harness gives the expected kind/value; Get returns exactly nil/int/float64/string/bool/Object/List, TypeOf agrees, the matching typed getter returns the value and the five others panic, content equals the expected tree bit-exactly, containers passed by reference keep identity; unsupported values make the call panic and leave a pre-existing container unchanged. Non-trivial = any value whose Go type is not already canonical. Distinct = distinct FNV-64a hash of the case JSON.",
+		"Go values of every supported dynamic type over full ranges (int8..int64, uint8..uint64 and uint up to MaxInt with width edges, float32 incl. subnormals/MaxFloat32/0.1f/-0, float64, string, bool, nil, Object and List by reference, the 7 slice and 7 map flavours incl. nil and empty and nil interface entries in the Object/List flavours, []any / map[string]any nested to depth 3, in one case of four holding ONE native map / slice / container instance at two places) and 30 unsupported types (time.Time, struct, pointer, typed nil pointers / func / chan, []int8, []byte, map[string]int8, map[int]string, array, complex, uintptr, chan, func, json.Number, named int/string, []uint, []float32, [][]any, ...), also nested inside []any/map[string]any, x 35 entry points (constructors, Add, Insert, Replace, Set, tree-form writes incl. padding and nested paths, the results of every Map variant on lists and objects incl. MapAsync, and NewListFrom/NewObjectFrom called directly). Oracle: an independent type switch in the harness gives the expected kind/value; Get returns exactly nil/int/float64/string/bool/Object/List, TypeOf agrees, the matching typed getter returns the value and the five others panic, content equals the expected tree bit-exactly, containers passed by reference keep identity; unsupported values make the call panic and leave a pre-existing container unchanged. Non-trivial = any value whose Go type is not already canonical. Distinct = distinct FNV-64a hash of the case JSON.",
 		GenC12, CheckC12)
 }
